@@ -41,6 +41,44 @@ const UNITS: &[(&str, usize)] = &[
     ("nanoseconds", 6),
 ];
 
+// Unit of each index of the decomposed array.
+const UNIT_OF_POS: [Unit; 7] = [
+    Unit::Day,
+    Unit::Hour,
+    Unit::Minute,
+    Unit::Second,
+    Unit::Millisecond,
+    Unit::Microsecond,
+    Unit::Nanosecond,
+];
+
+/// A parsed numeral. A plain integer (optional sign and digits only) is kept as an integer so that its
+/// product with a unit is exact: the binary64 product is not exact once it needs more than 53 bits.
+#[derive(Copy, Clone)]
+enum Numeral {
+    Integer(i128),
+    Float(f64),
+}
+
+impl Numeral {
+    fn parse(bytes: &[u8]) -> Result<Self, lexical_core::Error> {
+        match lexical_core::parse::<i128>(bytes) {
+            Ok(val) => Ok(Self::Integer(val)),
+            // Fraction, exponent, or too many digits for an integer
+            Err(_) => lexical_core::parse::<f64>(bytes).map(Self::Float),
+        }
+    }
+
+    fn times(self, unit: Unit) -> Duration {
+        match self {
+            Self::Integer(val) => Duration::from_total_nanoseconds(
+                val.saturating_mul((1_i64 * unit).total_nanoseconds()),
+            ),
+            Self::Float(val) => val * unit,
+        }
+    }
+}
+
 impl FromStr for Duration {
     type Err = HifitimeError;
 
@@ -125,10 +163,10 @@ fn cmp_chars_to_str(s: &str, start_idx: usize, cmp_str: &str) -> bool {
 }
 
 fn parse_duration(s: &str) -> Result<Duration, HifitimeError> {
-    let mut decomposed = [0.0_f64; 7];
+    let mut decomposed = [Duration::ZERO; 7];
     let mut prev_idx = 0;
     let mut seeking_number = true;
-    let mut latest_value = 0.0;
+    let mut latest_value = Numeral::Integer(0);
     let mut prev_char_was_space = false;
 
     for (idx, char) in s.char_indices() {
@@ -142,7 +180,7 @@ fn parse_duration(s: &str) -> Result<Duration, HifitimeError> {
                         });
                     }
 
-                    match lexical_core::parse(s[prev_idx..idx].as_bytes()) {
+                    match Numeral::parse(s[prev_idx..idx].as_bytes()) {
                         Ok(val) => latest_value = val,
                         Err(_) => {
                             return Err(HifitimeError::Parse {
@@ -164,7 +202,7 @@ fn parse_duration(s: &str) -> Result<Duration, HifitimeError> {
                 let mut found_unit = false;
                 for &(unit_str, pos) in UNITS {
                     if cmp_chars_to_str(s, start_idx, unit_str) {
-                        decomposed[pos] = latest_value;
+                        decomposed[pos] = latest_value.times(UNIT_OF_POS[pos]);
                         seeking_number = true;
                         prev_idx = end_idx;
                         found_unit = true;
@@ -194,7 +232,7 @@ fn parse_duration(s: &str) -> Result<Duration, HifitimeError> {
         let mut found_unit = false;
         for &(unit_str, pos) in UNITS {
             if cmp_chars_to_str(s, start_idx, unit_str) {
-                decomposed[pos] = latest_value;
+                decomposed[pos] = latest_value.times(UNIT_OF_POS[pos]);
                 found_unit = true;
                 break;
             }
@@ -213,16 +251,14 @@ fn parse_duration(s: &str) -> Result<Duration, HifitimeError> {
         });
     }
 
-    Ok(Duration::compose_f64(
-        1,
-        decomposed[0],
-        decomposed[1],
-        decomposed[2],
-        decomposed[3],
-        decomposed[4],
-        decomposed[5],
-        decomposed[6],
-    ))
+    // Same order of summation as Duration::compose_f64
+    Ok(decomposed[0]
+        + decomposed[1]
+        + decomposed[2]
+        + decomposed[3]
+        + decomposed[4]
+        + decomposed[5]
+        + decomposed[6])
 }
 
 fn parse_offset(s: &str) -> Result<Duration, HifitimeError> {
